@@ -28,7 +28,7 @@ ASYM = bytes(range(0x20, 0x40)).hex()
 def tx_from_alpha(d):
     k = d["kind"]
     s = int(d.get("salt", 0))
-    if k in ("legacy", "witness", "wide", "big"):
+    if k in ("legacy", "witness", "wide", "big", "coinbase"):
         return ref_tx(tx_desc_of_kind(k, s))
     if k == "noout":
         return ref_tx(simple_tx_desc(1, 0, (), salt=s))
@@ -70,7 +70,10 @@ def mk(kind, d):
     if kind == "block":
         return block_from_alpha(d)
     if kind == "header":
-        return ref_header(d)
+        r = ref_header(d)
+        if d.get("carries_txs"):
+            r["carries_txs"] = True       # the header is handed to pack() as a Block object that still holds a transaction
+        return r
     if isinstance(kind, (tuple, list)) and kind[0] == "array":
         ek = kind[1]
         if isinstance(d, dict) and "repeat" in d:       # {"repeat": [elements...], "n": N} = N elements cycling through the list
@@ -101,7 +104,10 @@ def to_py(kind, v, net):
     if kind == "tx":
         return build_tx(net.tx, v)
     if kind == "header":
-        return build_header(net.block, v["header"] if "header" in v else v)
+        b = build_header(net.block, v["header"] if "header" in v else v)
+        if v.get("carries_txs"):
+            b.txs = [build_tx(net.tx, tx_from_alpha({"kind": "legacy", "salt": 0}))]      # e.g. a stored block used to answer getheaders
+        return b
     if kind == "block":
         b = build_header(net.block, v["header"])
         b.set_txs([build_tx(net.tx, t) for t in v["txs"]])
@@ -155,6 +161,8 @@ def norm_ref(kind, v):
     """reference value in the canonical observed form (IPv4 -> mapped 16 bytes; block/header dicts)"""
     if kind == "netaddr":
         return {"services": v["services"], "ip": wire.ip16(v["ip"]), "port": v["port"]}
+    if kind == "header":
+        return {k: x for k, x in v.items() if k != "carries_txs"}
     if isinstance(kind, (tuple, list)) and kind[0] == "array":
         ek = kind[1]
         if isinstance(ek, (tuple, list)):
@@ -209,17 +217,18 @@ def alphabets(tier, seed):
     A["netaddr"] = [{"services": s, "ip": ip, "port": p} for s in (1, 0, 2 ** 64 - 1) for ip in ips for p in (8333, 0, 1, 255, 256, 65535)]
     types = [1, 2, 3, 4, 1 | 1 << 30, 2 | 1 << 30, 0, U32]
     A["inv"] = [{"type": t, "hash": h} for t in types for h in (ASYM, "00" * 32)]
-    A["tx"] = [{"kind": "legacy", "salt": 0}, {"kind": "witness", "salt": 1}, {"kind": "wide", "salt": 2}, {"kind": "big", "salt": 3}]
+    A["tx"] = [{"kind": "legacy", "salt": 0}, {"kind": "witness", "salt": 1}, {"kind": "wide", "salt": 2}, {"kind": "big", "salt": 3},
+               {"kind": "coinbase", "salt": 4}]
     A["tx-more"] = A["tx"] + [{"kind": "witness", "salt": 2}, {"kind": "noout", "salt": 4}, {"kind": "out253", "salt": 5},
                               {"kind": "in253", "salt": 6}, {"kind": "heavy", "salt": 7}, {"kind": "legacy", "salt": 255}]
     hdr = [dict(version=1, prev=ASYM, merkle=S if S != ASYM else ASYM[::-1], time=1231006505, bits=0x1d00ffff, nonce=2083236893),
            dict(version=0, prev="00" * 32, merkle="00" * 32, time=0, bits=0, nonce=0),
            dict(version=U32, prev="ff" * 32, merkle="ff" * 32, time=U32, bits=U32, nonce=U32),
            dict(version=2 ** 31, prev="00" * 31 + "01", merkle="80" + "00" * 31, time=1, bits=2 ** 31, nonce=1)]
-    A["header"] = hdr
+    A["header"] = hdr + [dict(hdr[0], carries_txs=True)]
     bh = dict(version=0x20000000, prev=ASYM, time=1500000000, bits=0x18000000, nonce=7)
     lay = [["legacy"], ["witness"], ["big"], ["legacy", "legacy"], ["legacy", "witness"], ["witness", "wide"], ["legacy", "legacy", "legacy"],
-           ["witness", "legacy", "big"], ["legacy", "wide", "witness", "legacy", "legacy"]]
+           ["witness", "legacy", "big"], ["legacy", "wide", "witness", "legacy", "legacy"], ["coinbase"], ["coinbase", "witness", "legacy"]]
     A["block"] = [{"header": bh, "kinds": k} for k in lay]
     return A
 
@@ -266,7 +275,7 @@ class Messages(Driver):
         self.k = 2 if tier == "quick" else 3
         self.limit = 50000 if tier == "quick" else 200000
         self.A = alphabets(tier, seed)
-        self.nproof = 6 if tier == "quick" else 8
+        self.nproof = 9 if tier == "quick" else 11
         self.seed_label = "%d" % seed
         self.plans = {}
         for msg, layout in wire.MESSAGES.items():
@@ -473,6 +482,21 @@ class Messages(Driver):
                 return BAD("parse-differs", "tx_hashes = matched ids", describe(got), clause="merkleblock-matches", kind="parse")
         if unstructured_alert:
             return OK("info:alert-unstructured-payload:parsed")
+        # the caller edits the dictionary it was handed, then the same bytes arrive again (Mode S, depth 2): the second
+        # parse must still return exactly the fields on the wire
+        for v in list(d.values()):
+            if isinstance(v, list):
+                v.append("caller-edit")
+        d.clear()
+        d["caller-note"] = 1
+        try:
+            d2, bad2 = parse_of(R)
+        except Exception as e:
+            return BAD("parse-history", "second parse of the same bytes = the fields", exc(e), clause="aliasing:parse-result-shared", kind="parse")
+        if bad2 or d2 is d:
+            return BAD("parse-history", "second parse of the same bytes = the fields (a fresh object)",
+                       "same object returned again" if d2 is d else "%s = %s" % (bad2[0][0], bad2[0][2]),
+                       clause="aliasing:parse-result-shared", kind="parse")
         return OK("parse:" + label + (":empty" if not layout else ""))
 
     def run_layout(self, name):
